@@ -32,6 +32,7 @@ def run(ctx):
     ctx.rule('R13.2', 'seed-table lookups with a caller-supplied key are guarded by a membership test (unlisted streams reach the fallback updater)')
     ctx.rule('R13.3', 'update_seed is stateless; update_seeds calls it once per key with that key\'s own stream')
     ctx.rule('R13.4', 'ill-typed / negative / too large replication numbers are refused before the stream is touched')
+    ctx.rule('R13.5', 'every accepted update_seed call (re-)seeds the stream exactly once on every path (set_seed rewinds the generator)')
     for c in impls:
         check_updater(ctx, c)
     driver(ctx)
@@ -84,6 +85,18 @@ def check_updater(ctx, c):
                         where=f'{c}.update_seed')
         if not ok_recv:
             ctx.finding('R13.1', f'{c}.update_seed:receiver', ci, s, f'set_seed is called on `{unparse(s.func.value)}`, not on the stream passed for this key', where=f'{c}.update_seed')
+    # R13.5 every accepted path seeds the stream exactly once (or hands over to the fallback updater)
+    act = [x for x in sets + deleg]
+    anodes = [_node_containing(g, x) for x in act]
+    every = bool(anodes) and not g.reaches(g.entry, g.exit, avoid=anodes, labels_excluded=('exc', 'raise', 'reraise'))
+    twice = any(g.reaches(a, b) for a in anodes for b in anodes if a is not b)
+    ok = every and not twice
+    ctx.ob('R13.5', f'{c}.update_seed:must-seed', ok, sample=f'{c}.update_seed: every accepted path calls set_seed / the fallback exactly once: {ok}')
+    if not ok:
+        ctx.finding('R13.5', f'{c}.update_seed:conditional-seed', ci, (sets or deleg or [fn])[0],
+                    'an accepted update_seed call can return without (re-)seeding the stream'
+                    + (' or seeds it twice' if twice else '') + ': the numbers drawn afterwards then depend on what was drawn before, not only on name, seed and replication number',
+                    where=f'{c}.update_seed')
     # R13.2 guarded table lookups
     tables = set()
     init = prog.classes[c].methods.get('__init__')
